@@ -52,7 +52,14 @@ type Solver struct {
 	log         io.Writer // optional transcript
 	name        string
 	timeoutMs   int
+	retrying    bool
+	Retries     int // queries re-issued with a longer timeout after an unknown
+	Defs        int // definitions sent to the current process
+	epoch       int // identifies the solver process: terms defined in an earlier process are re-sent
+	Restarts    int
 }
+
+var solverEpoch = 0
 
 func solverCommand(kind string, timeoutMs int) (string, []string) {
 	switch kind {
@@ -65,37 +72,61 @@ func solverCommand(kind string, timeoutMs int) (string, []string) {
 }
 
 func NewSolver(kind string, timeoutMs int, transcript io.Writer) (*Solver, error) {
-	prog, args := solverCommand(kind, timeoutMs)
+	s := &Solver{log: transcript, name: kind, timeoutMs: timeoutMs}
+	if err := s.start(); err != nil {
+		return nil, err
+	}
+	return s, nil
+}
+
+// start launches a fresh solver process and resets all per-process bookkeeping.
+func (s *Solver) start() error {
+	prog, args := solverCommand(s.name, s.timeoutMs)
 	cmd := exec.Command(prog, args...)
 	in, err := cmd.StdinPipe()
 	if err != nil {
-		return nil, err
+		return err
 	}
 	out, err := cmd.StdoutPipe()
 	if err != nil {
-		return nil, err
+		return err
 	}
 	cmd.Stderr = os.Stderr
 	if err := cmd.Start(); err != nil {
-		return nil, err
+		return err
 	}
-	s := &Solver{cmd: cmd, in: in, out: bufio.NewReaderSize(out, 1<<16), declared: map[string]int{}, log: transcript, name: kind, timeoutMs: timeoutMs}
+	s.cmd, s.in, s.out = cmd, in, bufio.NewReaderSize(out, 1<<16)
+	s.declared = map[string]int{}
+	s.level, s.gen = 0, 0
 	s.declStack = [][]string{nil}
 	s.emitStack = [][]*Term{nil}
 	s.levelGen = []int{0}
-	if kind == "cvc5" {
+	s.dirty = false
+	solverEpoch++
+	s.epoch = solverEpoch
+	if s.name == "cvc5" {
 		s.send("(set-logic ALL)")
 	}
 	s.send("(set-option :print-success false)")
 	s.send("(set-option :produce-models true)")
 	// declarations and definitions survive pop: hash-consed terms are sent once
-	if kind == "cvc5" {
+	if s.name == "cvc5" {
 		s.send("(set-option :global-declarations true)")
 	} else {
 		s.send("(set-option :global-decls true)")
 	}
 	s.defAsserted = map[*Term]int{}
-	return s, nil
+	s.Defs = 0
+	return nil
+}
+
+// Restart replaces the solver process by a fresh one (empty assertion stack, no
+// definitions). Used to bound memory on very long runs: the caller re-asserts the
+// current decision prefix on the next path.
+func (s *Solver) Restart() error {
+	s.Close()
+	s.Restarts++
+	return s.start()
 }
 
 func (s *Solver) Close() {
@@ -187,7 +218,7 @@ func (s *Solver) ref(t *Term) string {
 		}
 		return t.name
 	}
-	if t.emitLevel >= 0 {
+	if t.emitEpoch == s.epoch {
 		return "t" + strconv.Itoa(t.id)
 	}
 	parts := make([]string, len(t.args))
@@ -195,12 +226,13 @@ func (s *Solver) ref(t *Term) string {
 		parts[i] = s.ref(a)
 	}
 	name := "t" + strconv.Itoa(t.id)
-	if t.emitLevel >= 0 {
+	if t.emitEpoch == s.epoch {
 		// defined meanwhile by a nested reference (a defining constraint that mentions t)
 		return name
 	}
 	s.send("(define-fun " + name + " () " + t.sort.String() + " (" + t.head() + " " + strings.Join(parts, " ") + "))")
-	t.emitLevel = 0
+	t.emitEpoch = s.epoch
+	s.Defs++
 	return name
 }
 
@@ -211,7 +243,24 @@ func (s *Solver) Assert(t *Term) {
 	s.send("(assert " + s.ref(t) + ")")
 }
 
+// Check answers the satisfiability of the current stack. An `unknown` (per-query
+// timeout, e.g. under machine load) is retried once with six times the budget before it
+// is passed on as inconclusive.
 func (s *Solver) Check() SatResult {
+	r := s.check1()
+	if r == Unknown && s.name != "cvc5" && !s.retrying {
+		s.retrying = true
+		s.UnknownCnt--
+		s.Retries++
+		s.send(fmt.Sprintf("(set-option :timeout %d)", s.timeoutMs*6))
+		r = s.check1()
+		s.send(fmt.Sprintf("(set-option :timeout %d)", s.timeoutMs))
+		s.retrying = false
+	}
+	return r
+}
+
+func (s *Solver) check1() SatResult {
 	start := time.Now()
 	s.send("(check-sat)")
 	s.dirty = false
